@@ -28,6 +28,8 @@ def palette(tier, seed):
     for d in (2, 3, 4):
         for _ in range(n // (d - 1)): comp.append(gen(d))
     # explicit corner cases: same-name nested IsAttr with a sibling still reading the outer attribute value
+    # two IsEqual validators whose operands compare (and hash) equal but are different objects of different types
+    comp += ['AND(ISEQ(1), ISEQ(True))', 'OR(ISEQ(1), NOT(ISEQ(True)))']
     comp += ["ISATTR('x', AND(ISATTR('x', ISEQ(5)), ISINST(L0)))", "ISATTR('x', AND(ISATTR('x', ISATTR('y', ISEQ(5))), ISATTR('y', ISEQ('a'))))",
              "OR(ISATTR('x', ISEQ(5)), ISATTR('x', ISEQ('a')))", "AND(NOT(ISATTR('x', IS(f1))), ISATTR('x', IS(f2)))",
              "NOT(ISATTR('x', OR(ISATTR('x', IS(f1)), IS(f2))))"]
